@@ -289,6 +289,90 @@ Proof.
   - exists g. split; [exact Hg | exact (Ha eq_refl)].
 Qed.
 
+(* ------------------------------------------------------------------------------------------ what is stored *)
+
+Lemma Qeq_bool_refl : forall q, Qeq_bool q q = true.
+Proof. intro q. apply Qeq_bool_iff. reflexivity. Qed.
+
+Lemma value_same_refl : forall x, value_same x x = true.
+Proof.
+  intros [|q| |n|p|q|]; unfold value_same; simpl; try reflexivity;
+    try apply Qeq_bool_refl; try apply Nat.eqb_refl. destruct p; reflexivity.
+Qed.
+
+Lemma value_same_in_range : forall d y x, value_same y x = true -> in_range d y = in_range d x.
+Proof.
+  intros d y x H. unfold value_same in H. unfold in_range.
+  destruct (core_of y) as [|p| |n|b|p|]; destruct (core_of x) as [|q| |m|c|q|]; try discriminate; try reflexivity.
+  - apply Qeq_bool_iff in H. destruct d as [lo hi|n]; [|reflexivity].
+    exact (in_range_num_Qeq lo hi p q H).
+  - apply Nat.eqb_eq in H. subst m. reflexivity.
+  - apply eqb_prop in H. subst c. reflexivity.
+Qed.
+
+Lemma float_of_same : forall x y, float_of x = Some y -> value_same y x = true.
+Proof.
+  intros [|q| |n|p|q|] y H; simpl in H; inversion H; subst y; unfold value_same; simpl;
+    try reflexivity; try apply Qeq_bool_refl. destruct p; reflexivity.
+Qed.
+
+Lemma float_of_defined : forall d x, well_kinded (DRange (fst d) (snd d)) x = true -> exists y, float_of x = Some y.
+Proof.
+  intros d [|q| |n|p|q|] H; simpl in H; try discriminate; simpl; eexists; reflexivity.
+Qed.
+
+(* the store checker is sound: a well-kinded value is kept with its own value *)
+Lemma check_store_sound : forall op d x,
+  check_store op d = true -> well_kinded d x = true ->
+  exists y, stored op x = Some y /\ value_same y x = true.
+Proof.
+  intros op d x Hc Hw. destruct op as [|p| |]; simpl in Hc; try discriminate.
+  - exists x. split; [reflexivity|apply value_same_refl].
+  - destruct d as [lo hi|n]; [|discriminate]. simpl.
+    destruct (pre_fires p x).
+    + destruct (float_of_defined (lo, hi) x Hw) as [y Hy]. exists y. split; [assumption|].
+      apply float_of_same. assumption.
+    + exists x. split; [reflexivity|apply value_same_refl].
+Qed.
+
+Definition stored_is_written (docs : list docrow) (stt : store_table) : Prop :=
+  forall r s x,
+    In r docs -> well_kinded (d_range r) x = true ->
+    exists op y, store_at stt (d_key r) s = Some op /\ stored op x = Some y /\ value_same y x = true.
+
+Theorem check_stores_sound : forall docs stt,
+  check_stores docs stt = true -> stored_is_written docs stt.
+Proof.
+  intros docs stt H r s x Hr Hw. unfold check_stores in H. rewrite forallb_forall in H.
+  specialize (H r Hr). unfold check_store_row in H. unfold store_at.
+  destruct (lookup_stores stt (d_key r)) as [ops|]; [|discriminate].
+  apply andb_true_iff in H. destruct H as [H1 H2].
+  exists (pick_store s ops). simpl.
+  assert (Hc : check_store (pick_store s ops) (d_range r) = true) by (destruct s; assumption).
+  destruct (check_store_sound _ _ x Hc Hw) as [y [Hy Hs]].
+  exists y. repeat split; assumption.
+Qed.
+
+(* refusal and storage together: whatever is accepted is kept as written, hence inside the documented range *)
+Theorem accepted_is_kept_in_range : forall docs gt stt,
+  same_limits docs gt [] -> stored_is_written docs stt ->
+  forall r s x k,
+    In r docs -> well_kinded (d_range r) x = true -> class_of x = Some k ->
+    exists g op y, guard_at gt (d_key r) s = Some g /\ store_at stt (d_key r) s = Some op /\
+                   stored op x = Some y /\ value_same y x = true /\
+                   (accepts g x = true -> in_range (d_range r) y = true).
+Proof.
+  intros docs gt stt Hl Hs r s x k Hr Hw Hk.
+  destruct (Hl r s x k Hr Hw Hk eq_refl) as [g [Hg [_ Hacc]]].
+  destruct (Hs r s x Hr Hw) as [op [y [Hop [Hy Hsame]]]].
+  exists g, op, y. repeat split; try assumption.
+  intro Ha. rewrite (value_same_in_range _ _ _ Hsame). apply Hacc. assumption.
+Qed.
+
+(* and a store that truncates is NOT value-preserving: the witness the checker exists for *)
+Lemma int_store_loses : stored StInt (VNum (1 # 2)) = Some (VNum 0) /\ value_same (VNum 0) (VNum (1 # 2)) = false.
+Proof. vm_compute. split; reflexivity. Qed.
+
 (* ------------------------------------------------------------------------------------------ refutation *)
 
 Lemma cls_eqb_eq : forall a b, cls_eqb a b = true -> a = b.
@@ -446,27 +530,121 @@ Proof. unfold mode_keys. repeat constructor; simpl; intuition discriminate. Qed.
 Lemma NoDup_detector_keys : NoDup detector_keys.
 Proof. unfold detector_keys. repeat constructor; simpl; intuition discriminate. Qed.
 
-Theorem exactly_one_sound : forall checks,
-  checks_ok checks = true ->
-  forall present,
-    config_accepts checks present = true <->
-    exactly_one mode_keys present /\ exactly_one detector_keys present.
+(* a check that counts presence, and any check on built objects (which are either there or not) *)
+Lemma counts_present_ext : forall keys st,
+  count_sections CMPresent keys st = count_present keys (fun k => st_present (st k)).
 Proof.
-  intros checks Hok present. unfold checks_ok in Hok.
+  intros keys st. unfold count_sections, count_present.
+  rewrite (filter_ext (fun k => counts CMPresent (st k)) (fun k => st_present (st k))); [reflexivity|].
+  intro k. destruct (st k); reflexivity.
+Qed.
+
+Lemma counts_built_ext : forall how keys m d,
+  count_sections how keys (built_state m d) = count_present keys (fun k => String.eqb k m || String.eqb k d).
+Proof.
+  intros how keys m d. unfold count_sections, count_present.
+  rewrite (filter_ext (fun k => counts how (built_state m d k)) (fun k => String.eqb k m || String.eqb k d));
+    [reflexivity|].
+  intro k. unfold built_state.
+  destruct (String.eqb k m || String.eqb k d); destruct how; reflexivity.
+Qed.
+
+Lemma pre_pass_iff : forall pre st,
+  checks_ok pre = true -> forallb counts_presence pre = true ->
+  (checks_pass pre st = true <->
+   exactly_one mode_keys (fun k => st_present (st k)) /\ exactly_one detector_keys (fun k => st_present (st k))).
+Proof.
+  intros pre st Hok Hhow. unfold checks_ok in Hok.
   apply andb_true_iff in Hok. destruct Hok as [Hok Hd].
   apply andb_true_iff in Hok. destruct Hok as [Hall Hm].
-  rewrite <- (exactly_one_b_iff _ present NoDup_mode_keys).
-  rewrite <- (exactly_one_b_iff _ present NoDup_detector_keys).
-  unfold config_accepts. rewrite forallb_forall in *. split.
+  set (P := fun k => st_present (st k)).
+  rewrite <- (exactly_one_b_iff _ P NoDup_mode_keys).
+  rewrite <- (exactly_one_b_iff _ P NoDup_detector_keys).
+  unfold checks_pass. rewrite forallb_forall in *.
+  assert (Hcnt : forall c, In c pre -> count_sections (pc_how c) (pc_keys c) st = count_present (pc_keys c) P).
+  { intros c Hc. specialize (Hhow c Hc). unfold counts_presence in Hhow.
+    destruct (pc_how c); try discriminate. apply counts_present_ext. }
+  split.
   - intro H. split.
     + apply existsb_exists in Hm. destruct Hm as [c [Hc Hcm]].
-      rewrite <- (check_is_sound _ c present Hcm). apply H. assumption.
+      rewrite <- (check_is_sound _ c P Hcm). rewrite <- (Hcnt c Hc). apply H. assumption.
     + apply existsb_exists in Hd. destruct Hd as [c [Hc Hcd]].
-      rewrite <- (check_is_sound _ c present Hcd). apply H. assumption.
-  - intros [H1 H2] c Hc. specialize (Hall c Hc). apply orb_true_iff in Hall.
+      rewrite <- (check_is_sound _ c P Hcd). rewrite <- (Hcnt c Hc). apply H. assumption.
+  - intros [H1 H2] c Hc. rewrite (Hcnt c Hc). specialize (Hall c Hc). apply orb_true_iff in Hall.
     destruct Hall as [Hcm|Hcd].
-    + rewrite (check_is_sound _ c present Hcm). assumption.
-    + rewrite (check_is_sound _ c present Hcd). assumption.
+    + rewrite (check_is_sound _ c P Hcm). assumption.
+    + rewrite (check_is_sound _ c P Hcd). assumption.
+Qed.
+
+Lemma keys_disjoint : forall k, In k detector_keys -> In k mode_keys -> False.
+Proof.
+  intros k Hd Hm. unfold detector_keys in Hd. unfold mode_keys in Hm. simpl in Hd, Hm.
+  repeat (destruct Hd as [Hd|Hd]; [subst k; intuition discriminate|]). exact Hd.
+Qed.
+
+Lemma exactly_one_built_mode : forall m d,
+  In m mode_keys -> In d detector_keys ->
+  exactly_one mode_keys (fun k => String.eqb k m || String.eqb k d).
+Proof.
+  intros m d Hm Hd. exists m. split; [assumption|]. split.
+  - rewrite String.eqb_refl. reflexivity.
+  - intros k' Hk' H. apply orb_true_iff in H. destruct H as [H|H]; apply String.eqb_eq in H; [assumption|].
+    subst k'. exfalso. exact (keys_disjoint d Hd Hk').
+Qed.
+
+Lemma exactly_one_built_det : forall m d,
+  In m mode_keys -> In d detector_keys ->
+  exactly_one detector_keys (fun k => String.eqb k m || String.eqb k d).
+Proof.
+  intros m d Hm Hd. exists d. split; [assumption|]. split.
+  - rewrite String.eqb_refl. apply orb_true_r.
+  - intros k' Hk' H. apply orb_true_iff in H. destruct H as [H|H]; apply String.eqb_eq in H; [|assumption].
+    subst k'. exfalso. exact (keys_disjoint m Hk' Hm).
+Qed.
+
+Lemma post_pass : forall post m d,
+  forallb (fun c => check_is mode_keys c || check_is detector_keys c) post = true ->
+  In m mode_keys -> In d detector_keys ->
+  checks_pass post (built_state m d) = true.
+Proof.
+  intros post m d Hall Hm Hd. unfold checks_pass. rewrite forallb_forall in *.
+  intros c Hc. rewrite counts_built_ext. specialize (Hall c Hc). apply orb_true_iff in Hall.
+  destruct Hall as [H|H]; rewrite (check_is_sound _ c _ H).
+  - apply (exactly_one_b_iff _ _ NoDup_mode_keys). apply exactly_one_built_mode; assumption.
+  - apply (exactly_one_b_iff _ _ NoDup_detector_keys). apply exactly_one_built_det; assumption.
+Qed.
+
+(* objects that are given or not: every way of counting is counting presence *)
+Lemma counts_given_ext : forall how keys given,
+  count_sections how keys (given_state given) = count_present keys (present_of given).
+Proof.
+  intros how keys given. unfold count_sections, count_present.
+  rewrite (filter_ext (fun k => counts how (given_state given k)) (present_of given)); [reflexivity|].
+  intro k. unfold given_state. destruct (present_of given k); destruct how; reflexivity.
+Qed.
+
+Theorem built_checks_sound : forall post,
+  checks_ok post = true ->
+  forall given,
+    checks_pass post (given_state given) = true <->
+    exactly_one mode_keys (present_of given) /\ exactly_one detector_keys (present_of given).
+Proof.
+  intros post Hok given. unfold checks_ok in Hok.
+  apply andb_true_iff in Hok. destruct Hok as [Hok Hd].
+  apply andb_true_iff in Hok. destruct Hok as [Hall Hm].
+  set (P := present_of given).
+  rewrite <- (exactly_one_b_iff _ P NoDup_mode_keys).
+  rewrite <- (exactly_one_b_iff _ P NoDup_detector_keys).
+  unfold checks_pass. rewrite forallb_forall in *. split.
+  - intro H. split.
+    + apply existsb_exists in Hm. destruct Hm as [c [Hc Hcm]].
+      rewrite <- (check_is_sound _ c P Hcm). unfold P. rewrite <- (counts_given_ext (pc_how c)). apply H. assumption.
+    + apply existsb_exists in Hd. destruct Hd as [c [Hc Hcd]].
+      rewrite <- (check_is_sound _ c P Hcd). unfold P. rewrite <- (counts_given_ext (pc_how c)). apply H. assumption.
+  - intros [H1 H2] c Hc. rewrite counts_given_ext. fold P. specialize (Hall c Hc). apply orb_true_iff in Hall.
+    destruct Hall as [Hcm|Hcd].
+    + rewrite (check_is_sound _ c P Hcm). assumption.
+    + rewrite (check_is_sound _ c P Hcd). assumption.
 Qed.
 
 (* the section that is used is the one that is present *)
@@ -483,17 +661,117 @@ Proof.
     intros k' Hk' Hp'. apply Huniq; [right; assumption|assumption].
 Qed.
 
-Theorem uses_present_section : forall checks,
-  checks_ok checks = true ->
-  forall (present : string -> bool) m d,
-    config_accepts checks present = true ->
-    In m mode_keys -> present m = true -> In d detector_keys -> present d = true ->
-    used_sections present = [m; d].
+Lemma first_present_In : forall keys present k,
+  first_present keys present = Some k -> In k keys /\ present k = true.
 Proof.
-  intros checks Hok present m d H Hm Hpm Hd Hpd.
-  apply (proj1 (exactly_one_sound checks Hok present)) in H. destruct H as [H1 H2].
-  unfold used_sections.
-  rewrite (first_present_unique _ _ m H1 Hm Hpm), (first_present_unique _ _ d H2 Hd Hpd). reflexivity.
+  induction keys as [|a keys IH]; intros present k H; simpl in H; [discriminate|].
+  destruct (present a) eqn:Ea.
+  - inversion H; subst. split; [left; reflexivity|assumption].
+  - destruct (IH _ _ H) as [H1 H2]. split; [right; assumption|assumption].
+Qed.
+
+Lemma str_mem_In : forall k l, str_mem k l = true <-> In k l.
+Proof.
+  intros k l. unfold str_mem. rewrite existsb_exists. split.
+  - intros [x [Hx He]]. apply String.eqb_eq in He. subst x. assumption.
+  - intro H. exists k. split; [assumption|apply String.eqb_refl].
+Qed.
+
+Lemma same_keys_In : forall a b, same_keys a b = true -> forall k, In k a <-> In k b.
+Proof.
+  intros a b H k. unfold same_keys in H. apply andb_true_iff in H. destruct H as [H1 H2].
+  rewrite forallb_forall in H1, H2. split; intro Hk.
+  - apply str_mem_In. apply H1. assumption.
+  - apply str_mem_In. apply H2. assumption.
+Qed.
+
+Lemma exactly_one_same_keys : forall a b present,
+  same_keys a b = true -> exactly_one b present -> exactly_one a present.
+Proof.
+  intros a b present Hs [k [Hk [Hp Hu]]]. pose proof (same_keys_In a b Hs) as E.
+  exists k. split; [apply E; assumption|]. split; [assumption|].
+  intros k' Hk' Hp'. apply Hu; [apply E; assumption|assumption].
+Qed.
+
+Lemma st_present_iff : forall s, st_present s = true <-> s <> SAbsent.
+Proof. intros []; simpl; split; intro H; try reflexivity; try discriminate; congruence. Qed.
+
+Lemma only_present_exactly : forall keys st k,
+  only_present keys st k <->
+  (In k keys /\ st_present (st k) = true /\
+   forall k', In k' keys -> st_present (st k') = true -> k' = k).
+Proof.
+  intros keys st k. unfold only_present. split.
+  - intros [H1 [H2 H3]]. split; [assumption|]. split; [apply st_present_iff; assumption|].
+    intros k' Hk' Hp. apply H3; [assumption|apply st_present_iff; assumption].
+  - intros [H1 [H2 H3]]. split; [assumption|]. split; [apply st_present_iff; assumption|].
+    intros k' Hk' Hp. apply H3; [assumption|apply st_present_iff; assumption].
+Qed.
+
+(* THE exactly-one theorem, over every assignment of section states *)
+Theorem loader_sound : forall pre post mdisp ddisp,
+  loader_ok pre post mdisp ddisp = true ->
+  forall st m d,
+    dispatch pre post mdisp ddisp st = Some (m, d) <->
+    only_present mode_keys st m /\ only_present detector_keys st d.
+Proof.
+  intros pre post mdisp ddisp Hok st m d. unfold loader_ok in Hok.
+  apply andb_true_iff in Hok. destruct Hok as [Hok Hdd].
+  apply andb_true_iff in Hok. destruct Hok as [Hok Hmd].
+  apply andb_true_iff in Hok. destruct Hok as [Hok Hpost].
+  apply andb_true_iff in Hok. destruct Hok as [Hpre Hhow].
+  set (P := fun k => st_present (st k)).
+  pose proof (pre_pass_iff pre st Hpre Hhow) as Hpp. fold P in Hpp.
+  rewrite !only_present_exactly. fold P. unfold dispatch. fold P. split.
+  - intro H. destruct (checks_pass pre st) eqn:Ecp; [|discriminate].
+    destruct (proj1 Hpp eq_refl) as [Hm1 Hd1].
+    destruct (first_present mdisp P) as [m'|] eqn:Em; [|discriminate].
+    destruct (first_present ddisp P) as [d'|] eqn:Ed; [|discriminate].
+    destruct (checks_pass post (built_state m' d')); [|discriminate].
+    inversion H; subst m' d'. clear H.
+    apply first_present_In in Em. destruct Em as [Hmin Hmp].
+    apply first_present_In in Ed. destruct Ed as [Hdin Hdp].
+    apply (same_keys_In _ _ Hmd) in Hmin. apply (same_keys_In _ _ Hdd) in Hdin.
+    destruct Hm1 as [m0 [Hm0 [Hpm0 Hum]]]. destruct Hd1 as [d0 [Hd0 [Hpd0 Hud]]].
+    assert (m = m0) by (apply Hum; assumption). assert (d = d0) by (apply Hud; assumption). subst m0 d0.
+    repeat split; assumption.
+  - intros [[Hmin [Hmp Hum]] [Hdin [Hdp Hud]]].
+    assert (Hm1 : exactly_one mode_keys P) by (exists m; repeat split; assumption).
+    assert (Hd1 : exactly_one detector_keys P) by (exists d; repeat split; assumption).
+    rewrite (proj2 Hpp (conj Hm1 Hd1)).
+    rewrite (first_present_unique mdisp P m (exactly_one_same_keys _ _ _ Hmd Hm1)
+               (proj2 (same_keys_In _ _ Hmd m) Hmin) Hmp).
+    rewrite (first_present_unique ddisp P d (exactly_one_same_keys _ _ _ Hdd Hd1)
+               (proj2 (same_keys_In _ _ Hdd d) Hdin) Hdp).
+    rewrite (post_pass post m d Hpost Hmin Hdin). reflexivity.
+Qed.
+
+(* two keys of one group in the document: refused, whatever the sections hold *)
+Theorem two_sections_refused : forall pre post mdisp ddisp,
+  loader_ok pre post mdisp ddisp = true ->
+  forall st keys k1 k2,
+    keys = mode_keys \/ keys = detector_keys ->
+    In k1 keys -> In k2 keys -> k1 <> k2 -> st k1 <> SAbsent -> st k2 <> SAbsent ->
+    dispatch pre post mdisp ddisp st = None.
+Proof.
+  intros pre post mdisp ddisp Hok st keys k1 k2 Hkeys H1 H2 Hne Hs1 Hs2.
+  destruct (dispatch pre post mdisp ddisp st) as [[m d]|] eqn:E; [|reflexivity]. exfalso.
+  apply (loader_sound _ _ _ _ Hok) in E. destruct E as [[_ [_ Hum]] [_ [_ Hud]]].
+  destruct Hkeys; subst keys.
+  - apply Hne. rewrite (Hum k1 H1 Hs1), (Hum k2 H2 Hs2). reflexivity.
+  - apply Hne. rewrite (Hud k1 H1 Hs1), (Hud k2 H2 Hs2). reflexivity.
+Qed.
+
+(* a document is never loaded as another mode / detector than one whose section is filled *)
+Theorem never_another_section : forall pre post mdisp ddisp,
+  loader_ok pre post mdisp ddisp = true ->
+  forall st m d k,
+    dispatch pre post mdisp ddisp st = Some (m, d) -> st k = SFilled ->
+    (In k mode_keys -> k = m) /\ (In k detector_keys -> k = d).
+Proof.
+  intros pre post mdisp ddisp Hok st m d k E Hk.
+  apply (loader_sound _ _ _ _ Hok) in E. destruct E as [[_ [_ Hum]] [_ [_ Hud]]].
+  split; intro Hin; [apply Hum|apply Hud]; try assumption; rewrite Hk; discriminate.
 Qed.
 
 (* ------------------------------------------------------------------------------------------ settings *)
@@ -615,12 +893,6 @@ Qed.
 
 (* ------------------------------------------------------------------------------------------ derived objects *)
 
-Lemma str_mem_In : forall k l, str_mem k l = true <-> In k l.
-Proof.
-  intros k l. unfold str_mem. rewrite existsb_exists. split.
-  - intros [x [Hx E]]. apply String.eqb_eq in E. subst. assumption.
-  - intro H. exists k. split; [assumption|apply String.eqb_refl].
-Qed.
 
 (* what `derive` holds under key k: the new value if k is changed, else the value of the original *)
 Definition derived_value (settings changes : list entry) (k : string) : option leaf :=
